@@ -11,7 +11,12 @@ import (
 // C14: hash commands against a reference field -> value map.
 
 func init() {
-	register("C14", familyCheck{&familySpec{Prop: "C14", Kinds: []string{"hash"}, Ref: refHash, Random: hashRandom, Sig: hashSig, LooseDeadlines: true, Deep: []Action{cmd("HGETALL", "h"), cmd("HSET", "h", "f1", "w"), cmd("HSET", "h", "nf", "1"), cmd("HDEL", "h", "f1"), cmd("HDEL", "h", "f1", "f2", "f3"), cmd("HINCRBY", "h", "f2", "5"), cmd("HINCRBYFLOAT", "h", "f3", "1.5"), cmd("HINCRBY", "h", "nf", "abc"), cmd("HSETNX", "h", "f1", "n"), cmd("HLEN", "h"), cmd("HKEYS", "h"), cmd("HVALS", "h"), cmd("HRANDFIELD", "h", "-3"), cmd("HSTRLEN", "h", "f1")},
+	register("C14", familyCheck{&familySpec{Prop: "C14", Kinds: []string{"hash"}, Ref: refHash, Random: hashRandom, Sig: hashSig, LooseDeadlines: true,
+		// a field holding the integer 0 (written, counted down to, or created by a zero increment) and its readers
+		ExtraCmd: func() []Action {
+			return []Action{cmd("HSET", "h", "f1", "0"), cmd("HINCRBY", "h", "nf", "0"), cmd("HINCRBY", "h", "f2", "-2"), cmd("HSET", "x", "f1", "0", "f2", "-0"), cmd("HSTRLEN", "x", "f1"), cmd("HINCRBYFLOAT", "h", "f3", "-1.5")}
+		},
+		Deep: []Action{cmd("HGETALL", "h"), cmd("HSET", "h", "f1", "0"), cmd("HSET", "h", "f1", "w"), cmd("HSET", "h", "nf", "1"), cmd("HDEL", "h", "f1"), cmd("HDEL", "h", "f1", "f2", "f3"), cmd("HINCRBY", "h", "f2", "5"), cmd("HINCRBYFLOAT", "h", "f3", "1.5"), cmd("HINCRBY", "h", "nf", "abc"), cmd("HSETNX", "h", "f1", "n"), cmd("HLEN", "h"), cmd("HKEYS", "h"), cmd("HVALS", "h"), cmd("HRANDFIELD", "h", "-3"), cmd("HSTRLEN", "h", "f1")},
 		Title: "refHash (a Go map field -> value text: HSET/HSETNX/HDEL, integer and float increments, exact readers, sized random selections)"}})
 }
 
